@@ -128,7 +128,7 @@ def check_graphs(ctx, helper, cases):
 # ---------------------------------------------------------------------------------------------
 # corpora
 
-REPO_PATTERNS_QUICK = "./unused ./pattern ./config ./analysis/edit ./internal/sync ./go/ir/irutil ./lintcmd/cache"
+REPO_PATTERNS_QUICK = "./unused ./pattern ./config ./analysis/edit ./internal/sync"
 
 
 def check_corpus(ctx, helper, tag, moddir, patterns, min_pkgs):
